@@ -208,11 +208,14 @@ func (t *Task) Schedule(executeAt time.Time) *Task {
 	t.lock.Lock()
 	defer t.lock.Unlock()
 
-	t.executeAt = executeAt
-
 	if executeAt.IsZero() {
+		// Take the task out of the schedule before the time is reset: the
+		// schedule handler reads the time of listed tasks and treats a zero
+		// time as due.
 		t.removeFromQueues()
+		t.executeAt = executeAt
 	} else {
+		t.executeAt = executeAt
 		t.addToSchedule(false)
 	}
 	return t
